@@ -27,6 +27,16 @@
            "the stored columns contain rank" (collection_empty_flag_refuted is the counterexample,
            finding collection:empty-list-ordered-flag); a collection without lists leaves no file
            (no_lists_no_file, finding collection:no-lists-no-file)
+   * the lists handed to these codecs are, in practice, DERIVED from other lists (copy constructor with
+     overrides, subsetting, clone) whose lazily computed state (identifiers / numbers resolved through
+     the vocabulary, ranks) has or has not been filled by earlier uses; the object copies its source's
+     __dict__.  derived_lists_wellformed: every history of derivations keeps the constructor's
+     invariants, so the theorems above hold of derived lists; caches_do_not_leak: the list at the end
+     of a history is the same, up to what it has cached itself, as at the end of the history without
+     any use of the intermediate lists; codecs_see_no_caches / collections_see_no_caches: two lists
+     that differ only in what they have cached give the same pickle / frame / table / stored
+     collection; derived_arrow_roundtrip: the table of a derived list carries the derived list's own
+     identifiers, flag, ranks and fields whatever was done with its sources.
    * "picklable generic key tuples"              -> key_reduce_id, key_rebuild_any
    * "trained models and pipelines through pickling ... the same scores": exercised only (pickle is a
      contract); see harness/props/c15.py extra().
@@ -36,7 +46,8 @@
    the same elements, bit for bit). *)
 From Coq Require Import ZArith List Bool String.
 From LK Require Import Model.C15_steps Gen.C15_save Model.C15_fs Model.C15_codec
-  Proofs.C15_crash Proofs.C15_codec Proofs.C15_arrow Proofs.C15_coll.
+  Model.C15_derive Proofs.C15_crash Proofs.C15_codec Proofs.C15_arrow Proofs.C15_coll Proofs.C15_derive
+  Gen.C15_state Proofs.C15_state.
 Import ListNotations.
 Open Scope string_scope.
 Open Scope list_scope.
@@ -133,6 +144,53 @@ Theorem no_lists_no_file : forall batch kf, load_parquet (save_parquet batch (em
 Proof. exact no_lists_no_file_l. Qed.
 Print Assumptions no_lists_no_file.
 
+(* the object the codec model speaks about is the object in the source: its attributes, the one wholesale
+   copy of its dictionary, and the statements of __getstate__ / __setstate__ / arrow_types, REGENERATED
+   from data/items.py on every run (Gen/C15_state.v), are those the model was written after *)
+Theorem itemlist_state_is_modelled :
+  itemlist_attrs = expected_itemlist_attrs /\
+  itemlist_dict_ops = expected_itemlist_dict_ops /\
+  getstate_shape = expected_getstate_shape /\
+  setstate_shape = expected_setstate_shape /\
+  arrow_types_shape = expected_arrow_types_shape.
+Proof. exact state_is_modelled_l. Qed.
+Print Assumptions itemlist_state_is_modelled.
+
+(* ---- (b') derived lists and lazily computed state ------------------------------------------------ *)
+
+Theorem derived_lists_wellformed : forall ss il il', wf_il il -> chain_run il ss = Some il' -> wf_il il'.
+Proof. exact chain_wf_l. Qed.
+Print Assumptions derived_lists_wellformed.
+
+Theorem caches_do_not_leak : forall il ss, opt_rel cache_equiv (chain_run il ss) (chain_run il (cold ss)).
+Proof. exact caches_do_not_leak_l. Qed.
+Print Assumptions caches_do_not_leak.
+
+Theorem codecs_see_no_caches : forall a b, cache_equiv a b ->
+  observe a = observe b /\ pickle_rt a = pickle_rt b /\ df_rt a = df_rt b /\
+  (forall ids numbers, arrow_types a ids numbers = arrow_types b ids numbers) /\
+  (forall cols, to_arrow_cols a cols = to_arrow_cols b cols) /\
+  (forall ids numbers, arrow_rt a ids numbers = arrow_rt b ids numbers).
+Proof. exact codecs_see_no_caches_l. Qed.
+Print Assumptions codecs_see_no_caches.
+
+Theorem collections_see_no_caches : forall batch kf xs ys,
+  items_equiv xs ys -> coll_rt batch kf xs = coll_rt batch kf ys.
+Proof. exact coll_sees_no_caches_l. Qed.
+Print Assumptions collections_see_no_caches.
+
+Theorem derived_arrow_roundtrip : forall il ss d numbers,
+  wf_il il -> chain_run il ss = Some d -> il_len d <> 0 -> has_ids d = true ->
+  (numbers = true -> has_nums d = true -> exists n, nums_strict d = Some n) ->
+  exists t d',
+    to_arrow d true numbers = Some t /\ from_arrow t = Some d' /\
+    il_len d' = il_len d /\ v_ids d' = v_ids d /\
+    il_ordered d' = il_ordered d /\ v_ranks d' = v_ranks d /\
+    fields_equiv (il_fields d') (il_fields d) /\
+    exists c, chain_run il (cold ss) = Some c /\ to_arrow c true numbers = Some t.
+Proof. exact derived_arrow_roundtrip_l. Qed.
+Print Assumptions derived_arrow_roundtrip.
+
 Theorem key_reduce_id : forall c k, key_in_cache c k -> rebuild_key c (reduce_key k) = (k, c).
 Proof. exact key_reduce_id_l. Qed.
 Print Assumptions key_reduce_id.
@@ -202,3 +260,14 @@ Proof.
   split; [exact ex_a_wf|]. split; [reflexivity|]. split; [eexists; reflexivity|].
   eexists. split; [vm_compute; reflexivity|reflexivity].
 Qed.
+
+(* a list whose identifiers come from its vocabulary is used (identifiers and ranks filled), a list
+   with scores, tied explicit ranks, one field fewer and one more is derived, used, and subset: the
+   history runs, and gives the same observation without the uses *)
+Example c15_derive_nonvacuous :
+  wf_il ex_src /\
+  option_map observe (chain_run ex_src ex_steps) =
+  Some (mkObs 2 (Some [12%Z; 11%Z]) (Some [2%Z; 1%Z]) true (Some [1%Z; 2%Z])
+          [("score", mkCol TF32 [1065353216%Z; 1073741824%Z]); ("w", mkCol 2 [7%Z; 9%Z])]) /\
+  option_map observe (chain_run ex_src (cold ex_steps)) = option_map observe (chain_run ex_src ex_steps).
+Proof. split; [exact ex_src_wf|exact ex_chain_l]. Qed.
